@@ -390,6 +390,21 @@ pub fn run(kind: &str, toks: &[&str]) -> Option<String> {
             ))
         }
         "XMETA" => Some(extract(&unhex(toks.first().copied().unwrap_or("")))),
+        // RNEW <file bytes: hex or @base^patches>: E57Reader::new on arbitrary file bytes.
+        // Output `<result> ;; <float oracle table of the XML section, if it can be read and parsed>`
+        "RNEW" => {
+            let file = resolve_dev(toks.first().copied().unwrap_or(""));
+            let f2 = file.clone();
+            let res = guard(move || E57Reader::new(std::io::Cursor::new(f2)).map(|r| (dump_reader(&r), r.xml().as_bytes().to_vec())));
+            Some(match res {
+                None => "PANIC ;; =30:0000000000000000:00000000".to_string(),
+                Some(Ok((dump, xml))) => format!("OK {} ;; {}", dump, oracle_table(&xml)),
+                Some(Err(e)) => {
+                    let xml = guard(move || E57Reader::raw_xml(std::io::Cursor::new(file)).ok()).flatten().unwrap_or_default();
+                    format!("E:{} ;; {}", err_name(&e), oracle_table(&xml))
+                }
+            })
+        }
         // diagnostic only: roxmltree's error message
         "XPARSEERR" => {
             let xml = unhex(toks.first().copied().unwrap_or(""));
